@@ -47,7 +47,7 @@ AnswerUpTo(b, a) ==
   ELSE LET top == CHOOSE m \in Meths : m <= a /\ b[m] > 0 /\ \A o \in Meths : (o <= a /\ b[o] > 0) => o <= m IN
        IF b[top] > 1 THEN Ambig ELSE top
 
-ResOk == gmap > 0 /\ Cur.res = AnswerUpTo(tbl[gmap], Cur.arg)
+ResOk == cur > 0 /\ Cur.res = AnswerUpTo(tbl[cur], Cur.arg)
 
 TStart(t)      == (Is("start", t) /\ Lift(StartCall(t))) \cdot Adv
 TLocked(t)     == (Is("locked", t) /\ Lift(Acquire(t))) \cdot (pc[t] = "newmap" /\ Adv)
